@@ -34,6 +34,17 @@
 #endif
 
 
+/*
+ * Whether an object is backed by an eventfd or by a pipe is a property of
+ * that object (decided when it was registered), not of the current value
+ * of eventfd_in_use, which changes if eventfd creation starts failing
+ * with ENOSYS later on.
+ */
+static int iv_event_raw_is_eventfd(const struct iv_event_raw *this)
+{
+	return this->event_wfd == this->event_rfd.fd;
+}
+
 static void iv_event_raw_got_event(void *_this)
 {
 	struct iv_event_raw *this = (struct iv_event_raw *)_this;
@@ -41,7 +52,7 @@ static void iv_event_raw_got_event(void *_this)
 	char buf[1024];
 	int ret;
 
-	toread = !eventfd_in_use ? sizeof(buf) : 8;
+	toread = !iv_event_raw_is_eventfd(this) ? sizeof(buf) : 8;
 
 	do {
 		ret = read(this->event_rfd.fd, buf, toread);
@@ -92,7 +103,7 @@ int iv_event_raw_register(struct iv_event_raw *this)
 	iv_fd_register(&this->event_rfd);
 
 	this->event_wfd = fd[1];
-	if (!eventfd_in_use) {
+	if (!iv_event_raw_is_eventfd(this)) {
 		iv_fd_set_cloexec(fd[1]);
 		iv_fd_set_nonblock(fd[1]);
 	}
@@ -105,7 +116,7 @@ void iv_event_raw_unregister(struct iv_event_raw *this)
 	iv_fd_unregister(&this->event_rfd);
 	close(this->event_rfd.fd);
 
-	if (!eventfd_in_use)
+	if (!iv_event_raw_is_eventfd(this))
 		close(this->event_wfd);
 }
 
@@ -114,7 +125,7 @@ void iv_event_raw_post(const struct iv_event_raw *this)
 	int ret;
 
 	do {
-		if (!eventfd_in_use) {
+		if (!iv_event_raw_is_eventfd(this)) {
 			ret = write(this->event_wfd, "", 1);
 		} else {
 			uint64_t x = 1;
